@@ -453,7 +453,7 @@ fn systematic_plan(items: &[(String, u8, bool)], k: usize) -> ReqPlan {
         seed: 0x5e5 ^ k as u64,
         h2: true,
         auth_cfg: 1,
-        users: vec![("u0".into(), "p0".into())],
+        users: vec![("u0".into(), "p0-secret-password".into())],
         sni_creds: 0,
         allow_private: allow,
         ipv6: true,
@@ -594,6 +594,18 @@ pub struct RunObs {
 }
 
 fn header_bytes(plan: &ReqPlan, a: &AuthCase) -> Vec<Vec<u8>> {
+    let v = header_bytes_inner(plan, a);
+    for h in &v {
+        // whatever follows the scheme is a credential, well-formed or not
+        if let Ok(t) = std::str::from_utf8(h) {
+            let token = t.split_once(' ').map(|x| x.1).unwrap_or(t).trim();
+            sim::canary("proxy-authorization", token);
+        }
+    }
+    v
+}
+
+fn header_bytes_inner(plan: &ReqPlan, a: &AuthCase) -> Vec<Vec<u8>> {
     use base64::Engine;
     let b64 = |s: String| base64::engine::general_purpose::STANDARD.encode(s);
     let pair = |i: usize| {
@@ -819,6 +831,8 @@ async fn run(plan: ReqPlan) -> RunObs {
 
     let obs: Vec<Arc<Mutex<ReqObs>>> = (0..n).map(|_| Arc::new(Mutex::new(ReqObs::default()))).collect();
     let rng = Rng::new(plan.seed);
+    sim::canary("sni-credentials", GOOD_SNI);
+    sim::canary("sni-credentials", BAD_SNI);
     let sni_creds = match plan.sni_creds {
         1 => Some(GOOD_SNI.to_string()),
         2 => Some(BAD_SNI.to_string()),
@@ -947,7 +961,12 @@ async fn h2_request(
             }
         }
     }
-    b = b.header("user-agent", "sim/1.0").header("cookie", format!("CANARY-COOKIE-{}", i));
+    sim::canary("cookie", &format!("CANARY-COOKIE-{}", i));
+    sim::canary("authorization", &format!("CANARY-AUTHZ-{}", i));
+    b = b
+        .header("user-agent", "sim/1.0")
+        .header("cookie", format!("CANARY-COOKIE-{}", i))
+        .header("authorization", format!("Bearer CANARY-AUTHZ-{}", i));
     let req = match b.body(()) {
         Ok(r) => r,
         Err(e) => {
@@ -1047,7 +1066,15 @@ async fn h1_request(plan: ReqPlan, i: usize, r: Req, conn: PeerConn, obs: Arc<Mu
         head.extend_from_slice(&h);
         head.extend_from_slice(b"\r\n");
     }
-    head.extend_from_slice(format!("User-Agent: sim/1.0\r\nCookie: CANARY-COOKIE-{}\r\n\r\n", i).as_bytes());
+    sim::canary("cookie", &format!("CANARY-COOKIE-{}", i));
+    sim::canary("authorization", &format!("CANARY-AUTHZ-{}", i));
+    head.extend_from_slice(
+        format!(
+            "User-Agent: sim/1.0\r\nCookie: CANARY-COOKIE-{}\r\nAuthorization: Bearer CANARY-AUTHZ-{}\r\n\r\n",
+            i, i
+        )
+        .as_bytes(),
+    );
     if conn.write_all(&head).await.is_err() {
         obs.lock().unwrap().error = Some("connection closed before the request was written".into());
         return;
